@@ -10,7 +10,7 @@ designated identifier; clear restores the initial state."
 All theorems hold for every entry count `n`.  `Inv n s`: `order` is a permutation of `range n` and
 `used ≤ n`; `allocated s = order.take used`.  `EnvOk s i` (environment hypothesis for one cycle):
 `free(ident)` only with `ident ∈ allocated s` and not together with `free_idx` (both call the
-exclusive `free_idx`; the winner is not specified by the source), `free_idx(idx)` only with
+exclusive `free_idx`; the scheduler grants one — `arbitrate`/`stepP`, `c26_exclusive`), `free_idx(idx)` only with
 `idx < used`.  `Reach n s A` quantifies over all histories from reset (simultaneous alloc and free
 included); `A` is the list of allocated identifiers, oldest first, rebuilt from the observations.
 -/
@@ -118,6 +118,17 @@ theorem c26_clear (n : Nat) (s : State) (i : In) :
 theorem c26_order (n : Nat) (s : State) (i : In) :
     (step n s i).2.order = if i.order then some (s.used, s.order) else none := rfl
 
+-- OBLIGATION c26_exclusive : free and free_idx share one exclusive removal port: whatever is attempted, at most one of them executes per cycle; attempted together exactly one executes (the one with scheduling priority), attempted alone each executes; the arbitrated input never carries both, so c26_inv/c26_free/c26_free_idx/c26_history apply to it
+theorem c26_exclusive (n : Nat) (ff : Bool) (s : State) (i : In) :
+    ¬ ((stepP n ff s i).2.free = true ∧ (stepP n ff s i).2.freeIdx = true) ∧
+    (i.free.isSome = true → i.freeIdx.isSome = true →
+      (stepP n ff s i).2.free = ff ∧ (stepP n ff s i).2.freeIdx = !ff) ∧
+    (i.freeIdx = none → (stepP n ff s i).2.free = i.free.isSome ∧ (stepP n ff s i).2.freeIdx = false) ∧
+    (i.free = none → (stepP n ff s i).2.freeIdx = i.freeIdx.isSome ∧ (stepP n ff s i).2.free = false) ∧
+    (∀ id, (arbitrate ff i).free = some id → (arbitrate ff i).freeIdx = none) := by
+  cases hf : i.free <;> cases hx : i.freeIdx <;> cases ff <;>
+    simp [stepP, arbitrate, step, hf, hx]
+
 /-- non-vacuity: entries = 3; allocate 0,1,2; free_idx(0) (oldest); free(2) together with alloc.  The
     final state is reachable, the bookkeeping list is [1, 0]: identifier 0 was re-allocated as the newest. -/
 example :
@@ -156,3 +167,4 @@ end TxV.POAllocator
 #print axioms TxV.POAllocator.c26_free
 #print axioms TxV.POAllocator.c26_clear
 #print axioms TxV.POAllocator.c26_order
+#print axioms TxV.POAllocator.c26_exclusive
